@@ -1,6 +1,6 @@
 """Generic check protocol (DESIGN.md section 2 and 5): regenerate, build proofs, run correspondence
 streams, decide, write evidence."""
-import concurrent.futures as cf, hashlib, json, os, re, sys, time
+import concurrent.futures as cf, hashlib, json, os, re, sys, threading, time
 from . import common as C
 
 ALLOWED_AXIOMS = set()   # stdlib axioms we rely on would be named here (none so far)
@@ -63,6 +63,7 @@ class Check:
         self.known_hits = {}
         self.cov = {"evaluations": 0, "distinct_nontrivial": 0, "samples": [], "streams": {}, "distribution": {}}
         self._distinct = set()
+        self._lock = threading.RLock()
 
     # ---- hooks for subclasses
     def regen(self, harness):
@@ -77,7 +78,8 @@ class Check:
     def violation(self, payload, suffix=""):
         payload = dict(payload, property=self.pid, seed=self.seed, tier=self.tier)
         path = C.write_replay(self.pid, payload)
-        self.violations.append((path, suffix))
+        with self._lock:
+            self.violations.append((path, suffix))
 
     def known_finding(self, key, what):
         self.known_hits[key] = what
@@ -119,11 +121,17 @@ class Check:
             spec_fail = False
             model_fail = []
             stream_errors = []
-            for st in self.streams:
+            def one(st):
                 try:
-                    r = self.run_stream(st, harness)
+                    return st, self.run_stream(st, harness), None
                 except Exception as e:
+                    return st, None, e
+            with cf.ThreadPoolExecutor(max_workers=4) as ex:
+                results = list(ex.map(one, self.streams))
+            for st, r, e in results:
+                if e is not None:
                     stream_errors.append("%s: %s" % (st.name, str(e)[-1500:]))
+                    C.log("stream %s failed: %s" % (st.name, str(e)[-3000:]))
                     continue
                 if r["spec_bad"]:
                     spec_fail = True
@@ -168,21 +176,23 @@ class Check:
 
     # ---- streams
     def run_stream(self, st, harness):
+        t_start = time.time()
         rng = self.rng.fork(st.name)
         cases = self.corpus_cases(st) + st.generate(rng, self.tier)
         obs = C.harness_call(harness, st.sub, [st.go_case(c) for c in cases], timeout=st.harness_timeout) if st.sub else [None] * len(cases)
         info = {"cases": len(cases), "model_bad": 0, "spec_bad": 0}
         dist = {}
-        for c, o in zip(cases, obs):
-            k = st.key(c, o)
-            if k is not None:
-                self._distinct.add(hashlib.sha256((st.name + k).encode()).hexdigest())
-            cl = st.classify(c, o)
-            dist[cl] = dist.get(cl, 0) + 1
-        self.cov["evaluations"] += len(cases)
-        self.cov["distribution"][st.name] = dist
-        if cases:
-            self.cov["samples"].append({"stream": st.name, "case": st.go_case(cases[len(cases) // 2]), "observed": obs[len(cases) // 2]})
+        with self._lock:
+            for c, o in zip(cases, obs):
+                k = st.key(c, o)
+                if k is not None:
+                    self._distinct.add(hashlib.sha256((st.name + k).encode()).hexdigest())
+                cl = st.classify(c, o)
+                dist[cl] = dist.get(cl, 0) + 1
+            self.cov["evaluations"] += len(cases)
+            self.cov["distribution"][st.name] = dist
+            if cases:
+                self.cov["samples"].append({"stream": st.name, "case": st.go_case(cases[len(cases) // 2]), "observed": obs[len(cases) // 2]})
         # python-side direct oracle
         for i, (c, o) in enumerate(zip(cases, obs)):
             msg = st.direct_check(c, o)
@@ -202,6 +212,7 @@ class Check:
             self.report_case(st, c, o, "implementation differs from %s" % ("specification" if st.spec_check else "model (proved equal to the specification)"), exp)
             if info["spec_bad"] >= 3:
                 break
+        info["wall_s"] = round(time.time() - t_start, 1)
         self.cov["streams"][st.name] = info
         return info
 
@@ -223,7 +234,7 @@ class Check:
         return out
 
     def cases_text(self, st, cases, obs, fns):
-        hdr = "From Coq Require Import NArith ZArith List Bool String.\nImport ListNotations.\n"
+        hdr = "From Coq Require Import NArith ZArith List Bool.\nImport ListNotations.\n"
         hdr += "".join("Require Import %s.\n" % r for r in st.requires)
         hdr += "Open Scope N_scope.\n"
         body = "Definition cases := [\n" + ";\n".join(st.coq_case(c, o) for c, o in zip(cases, obs)) + "\n].\n"
@@ -264,7 +275,7 @@ class Check:
     def expected(self, st, c, o):
         if not st.model_out:
             return None
-        hdr = "From Coq Require Import NArith ZArith List Bool String.\nImport ListNotations.\n"
+        hdr = "From Coq Require Import NArith ZArith List Bool.\nImport ListNotations.\n"
         hdr += "".join("Require Import %s.\n" % r for r in st.requires) + "Open Scope N_scope.\n"
         rc, out = C.coq_eval(hdr + "Eval vm_compute in (%s %s)." % (st.model_out, st.coq_case(c, o)), timeout=300)
         return " ".join(out.split())[:4000]
